@@ -103,9 +103,28 @@ func c11storeExec(c *h.Ctx, cs *h.Case) {
 	// removal routines get the lock — until a removal is scheduled after that Set
 	setCopy := map[int]int{}
 	removedSince := map[int]bool{}
+	// second oracle, on the harness's own bookkeeping of the LATEST removal of each id: pendingSince[k] is
+	// taken just before the Remove call that scheduled it and cleared by whatever cancels it (Set,
+	// getAndRefresh, Close). A stored tree may disappear only when such a removal is pending, and not
+	// earlier than one time-out after pendingSince — a stale routine of an earlier, cancelled removal must
+	// not complete the later one. (Timers never fire early and the observation is later than the release,
+	// so a loaded machine cannot make this oracle fail.)
+	pendingSince := map[int]time.Time{}
+	early := ""
 	obs := func() string {
 		var parts []string
 		for k := 0; k < 6; k++ {
+			if cp := setCopy[k]; cp != 0 && st.Get(idOf(k)) != f.trees[k][cp] {
+				if since, ok := pendingSince[k]; ok {
+					if d := time.Since(since); d < c11storeTimeout {
+						early = fmt.Sprintf("tree id %d was released %v after its latest removal was scheduled, the grace period is %v: a routine of an earlier, cancelled removal completed the later one", k, d, c11storeTimeout)
+						cs.Fail("tree-released-early", early)
+					}
+					// released by its removal: forget it
+					delete(pendingSince, k)
+					setCopy[k] = 0
+				}
+			}
 			if cp := setCopy[k]; cp != 0 && !removedSince[k] && st.Get(idOf(k)) != f.trees[k][cp] {
 				cs.Fail("stored-tree-lost", fmt.Sprintf("tree id %d was stored by Set and no removal has been scheduled since, yet the store no longer holds it (%s)", k, st.State(idOf(k))))
 			}
@@ -172,6 +191,7 @@ func c11storeExec(c *h.Ctx, cs *h.Case) {
 				t = st.Get(idOf(k))
 			} else {
 				t = st.GetAndRefresh(idOf(k))
+				delete(pendingSince, k)
 			}
 			r := "nil"
 			for c := 1; c <= 2; c++ {
@@ -187,9 +207,13 @@ func c11storeExec(c *h.Ctx, cs *h.Case) {
 			cp, _ := strconv.Atoi(tk[4])
 			st.Set(f.trees[k][cp])
 			setCopy[k], removedSince[k] = cp, false
+			delete(pendingSince, k)
 			cs.Impl = append(cs.Impl, obs())
 		case "remove":
 			was := strings.HasSuffix(st.State(idOf(k)), "+armed")
+			if _, pend := pendingSince[k]; !pend && !closed {
+				pendingSince[k] = time.Now()
+			}
 			st.Remove(idOf(k))
 			if !closed {
 				removedSince[k] = true
@@ -274,6 +298,7 @@ func c11storeExec(c *h.Ctx, cs *h.Case) {
 				}
 			}
 			closed = true
+			pendingSince = map[int]time.Time{}
 			lastArm = time.Time{}
 			cs.Impl = append(cs.Impl, obs())
 		default:
@@ -284,6 +309,11 @@ func c11storeExec(c *h.Ctx, cs *h.Case) {
 		cs.NoModel, cs.Trivial = true, true
 		cs.Outcome = "unscheduled"
 		cs.Oracle, cs.Sig, cs.Msg = "ok", "", ""
+		if early != "" {
+			// does not depend on the pace of the ops
+			cs.NoModel, cs.Trivial = false, false
+			cs.Fail("tree-released-early", early)
+		}
 		return
 	}
 	cs.Outcome = fmt.Sprintf("store ops=%d", len(cs.Ops))
@@ -296,8 +326,34 @@ func c11storeGen(c *h.Ctx, yield func(*h.Case)) {
 	// by 2e39a89); a removal scheduled meanwhile must stay scheduled; ids do not interfere
 	yield(&h.Case{Class: "store-corpus", Ops: []string{op("set 0 1"), op("remove 0"), op("timer 0"), op("set 0 2"), op("reap 0"), op("get 0"), op("wait"), op("get 0")}})
 	yield(&h.Case{Class: "store-corpus", Ops: []string{op("set 0 1"), op("remove 0"), op("timer 0"), op("refresh 0"), op("remove 0"), op("reap 0"), op("get 0"), op("wait"), op("get 0")}})
+	// cancel + re-arm inside the fired window (seeded C11r4-B): the stale routine must leave the tree and the new removal
+	yield(&h.Case{Class: "store-corpus", Ops: []string{op("set 2 1"), op("remove 2"), op("timer 2"), op("set 2 2"), op("remove 2"), op("reap 2"), op("get 2"), op("isreg 2"), op("wait"), op("get 2")}})
+	yield(&h.Case{Class: "store-corpus", Ops: []string{op("set 0 1"), op("set 1 2"), op("remove 0"), op("remove 1"), op("timer 0"), op("refresh 0"), op("remove 0"), op("refresh 1"), op("reap 0"), op("get 0"), op("get 1"), op("timer 0"), op("reap 0"), op("get 0")}})
 	yield(&h.Case{Class: "store-corpus", Ops: []string{op("set 0 1"), op("set 1 1"), op("set 3 2"), op("remove 0"), op("remove 1"), op("refresh 1"), op("reg 2"), op("roster 0"), op("roster 1"), op("wait"), op("roster 0"), op("unreg 2"), op("isreg 2"), op("remove 3"), op("close"), op("wait"), op("get 3")}})
 	yield(&h.Case{Class: "store-corpus", Ops: []string{op("reg 4"), op("remove 4"), op("isreq 4"), op("wait"), op("isreg 4"), op("set 4 1"), op("remove 4"), op("timer 4"), op("close"), op("get 4"), op("remove 4"), op("wait"), op("get 4")}})
+	// the fired window: a removal's timer has fired and its routine waits for the lock; meanwhile the removal is
+	// cancelled and possibly scheduled again (and other ids are touched); then the stale routine goes on
+	for n := 0; n < c.Pick(12, 120); n++ {
+		k := r.Intn(6)
+		cs := &h.Case{Class: "store-window", Ops: []string{op("set %d %d", k, 1+r.Intn(2)), op("remove %d", k), op("timer %d", k)}}
+		for j := 0; j < 1+r.Intn(4); j++ {
+			switch r.Intn(6) {
+			case 0:
+				cs.Ops = append(cs.Ops, op("refresh %d", k))
+			case 1:
+				cs.Ops = append(cs.Ops, op("set %d %d", k, 1+r.Intn(2)))
+			case 2, 3:
+				cs.Ops = append(cs.Ops, op("remove %d", k))
+			case 4:
+				cs.Ops = append(cs.Ops, op("set %d 1", (k+1)%6), op("remove %d", (k+1)%6))
+			case 5:
+				cs.Ops = append(cs.Ops, op("get %d", k))
+			}
+		}
+		cs.Ops = append(cs.Ops, op("reap %d", k), op("get %d", k), op("wait"), op("get %d", k))
+		c.Count("class=store-window")
+		yield(cs)
+	}
 	for n := 0; n < c.Pick(40, 300); n++ {
 		cs := &h.Case{Class: "store"}
 		waits := 0
